@@ -483,3 +483,32 @@ from contracts.env_var_unit import env_var_unit  # noqa: E402
 UNITS.append(env_var_unit("C04"))
 from contracts.appends_unit import apply_appends_unit  # noqa: E402
 UNITS.append(apply_appends_unit("C04"))
+
+
+# ------------------------------------------------------------------------------------------------ parse_env
+def pe_setup(ctx, faults=False):
+    pm = ParserModel(ctx, faults=faults)
+    environ = [None, Rec("dict", attrs={"tag": "given-environ"})][ctx.choose(2, "environ-given")]
+    defaults = ctx.choose(2, "defaults") == 1
+    skip_validation = ctx.choose(2, "_skip_validation") == 1
+    env = {"self": pm.rec, "env": environ, "defaults": defaults, "with_meta": None, "kwargs": {"_skip_validation": skip_validation} if skip_validation else {}}
+    calls = common_calls(ctx)
+    calls["get_private_kwargs"] = lambda c, a, k: (a[0].get("_skip_validation", False), a[0].get("_skip_subcommands", False))
+    return Setup(env=env, calls=calls, data=dict(environ=environ, defaults=defaults, skip_validation=skip_validation, pm=pm))
+
+
+def pe_post(ctx, st, result):
+    d = st.data
+    calls = [e for e in ctx.events if e[0] == "call"]
+    pde = [e for e in calls if e[1] == "_parse_defaults_and_environ"]
+    ok = len(pde) == 1 and (pde[0][2] == (d["defaults"],) or pde[0][3].get("defaults") is d["defaults"]) and pde[0][3].get("env") is True and pde[0][3].get("environ") is d["environ"]
+    ctx.oblige("post", "the-configuration-starts-from-ov(defaults, environment)-with-the-environment-switched-on-and-read-from-the-mapping-given(or os.environ)", ok)
+    pc = [e for e in calls if e[1] == "_parse_common"]
+    want = {"env": True, "defaults": d["defaults"], "with_meta": None, "skip_validation": d["skip_validation"], "skip_subcommands": False}
+    if d["skip_validation"]:
+        want["fail_no_subcommand"] = False
+    got = {k: v for k, v in pc[0][3].items() if k != "cfg"} if pc else None
+    ctx.oblige("post", "completed-by-_parse_common-with-the-environment-on-and-the-caller's-settings;result-returned", len(pc) == 1 and got == want and expr_of(result) == ("common", expr_of(pc[0][3]["cfg"])), note=str(got))
+
+
+UNITS.append(Unit("C04", "jsonargparse._core:ArgumentParser.parse_env", pe_setup, pe_post, no_exc))
